@@ -1,3 +1,4 @@
+from common import guarded
 """C09  Covariance reports exact means, variances, covariance and Pearson correlation.  Engine RS + VL."""
 import terms as tm
 from terms import T, UINT, REAL, TRUE, FALSE, And, Not, Or, real
@@ -148,8 +149,8 @@ def run(tier, seed):
             pr.holds("Covariance.merge[both].inv_cauchy_schwarz", fm, p.pc, inv(p.state["self"]), cls={"case": "both"})
     obs = pr.obs
     import envelope
-    obs += envelope.guard_covariance("C09")
-    obs += vl.run_lemmas("C09", ["lemma_fold", "merge_tree", "concat", "swap"])
+    obs += guarded("C09.engine.envelope.guard_covariance@L151", lambda: envelope.guard_covariance("C09"))
+    obs += guarded("C09.engine.vl.run_lemmas@L152", lambda: vl.run_lemmas("C09", ["lemma_fold", "merge_tree", "concat", "swap"]))
     meta = {
         "level": "proof",
         "checker_cmd": "./check C09 (rsx -> RS executor -> sympy / z3 QF_NRA; verus history.rs)",
